@@ -11,7 +11,7 @@ HERE = os.path.dirname(os.path.dirname(os.path.abspath(__file__)))
 sys.path.insert(0, HERE)
 from tools import mutate
 
-TARGET = "/tmp/seed-target"
+TARGET = os.environ.get("SEED_TARGET", "/tmp/seed-target")   # one target dir per concurrent verify (shared dirs collide)
 
 
 def sh(cmd, cwd=None, env=None, timeout=1800):
@@ -61,12 +61,13 @@ def verify(seed, demo_name):
 
 
 def check(seed, props=None):
+    import hashlib as _h
     root = tempfile.mkdtemp(prefix="lsv-seed-")
     try:
         if not mutate.apply_patch_copy(os.path.join(seed, "patch.diff"), root):
             return {"error": "patch does not apply"}
         props = props or mutate.all_props()
-        res = mutate.run_checks(root, props, os.path.join(tempfile.gettempdir(), "lsv-work-seed"))
+        res = mutate.run_checks(root, props, os.path.join(tempfile.gettempdir(), "lsv-work-seed-" + _h.sha1(seed.encode()).hexdigest()[:8]))
         return {p: r for p, r in res.items()}
     finally:
         shutil.rmtree(root, ignore_errors=True)
